@@ -329,52 +329,66 @@ fn rd_u64(b: &[u8], o: usize) -> u64 {
     (rd_u32(b, o) as u64) | ((rd_u32(b, o + 4) as u64) << 32)
 }
 
-//@ props: C11 C12 C07
-//@ tier: quick
-//@ timeout: 2400
-//@ functions: frequencies::FrequentItemsSketch::serialize
-//@ functions: frequencies::FrequentItemsSketch::serialize_inner
-//@ functions: frequencies::FrequentItemsSketch::deserialize
-//@ functions: frequencies::FrequentItemsSketch::deserialize_inner
-//@ bounds: size-8 sketches with 0 or 1 active u64 item, arbitrary offset and stream weight - including the purged-to-empty state (no active item, stream_weight > 0, offset > 0)
-//@ assumes: sketch invariant (valid probing table)
-//@ replay_stub: frequencies/reverse_purge_item_hash_map.rs | fn hash_item<T: Hash>(item: &T) -> u64 { | return self::verif_kani_frequencies_map::verif_hash_item(item);
-//@ desc: serialize() follows the Frequent Items layout (preLongs 1/4, serVer 1, family 10, lgMax @3, lgCur @4, flags @5 with empty bit 2, activeItems u32 @8, streamWeight u64 @16, offset u64 @24, then counts, then items) read by an independent decoder; deserialize(serialize(s)) has the same total weight, maximum error and per-item bounds for every key
-#[kani::proof]
-#[kani::unwind(10)]
-#[kani::stub(crate::frequencies::reverse_purge_item_hash_map::hash_item, verif_hash_item)]
-#[kani::stub(alloc::fmt::format, stub_format)]
-#[kani::stub(<[u64]>::select_nth_unstable, crate::verif_kani_common::model_select_nth)]
-fn c11_frequencies_roundtrip_layout() {
+/// loop-free little-endian store
+fn put_le(b: &mut [u8], o: usize, v: u64, n: usize) {
+    b[o] = v as u8;
+    if n >= 2 {
+        b[o + 1] = (v >> 8) as u8;
+    }
+    if n >= 4 {
+        b[o + 2] = (v >> 16) as u8;
+        b[o + 3] = (v >> 24) as u8;
+    }
+    if n >= 8 {
+        b[o + 4] = (v >> 32) as u8;
+        b[o + 5] = (v >> 40) as u8;
+        b[o + 6] = (v >> 48) as u8;
+        b[o + 7] = (v >> 56) as u8;
+    }
+}
+
+/// Round trip against a SPEC ENCODER (Frequent Items layout of datasketches-java/cpp, u64 items) in an
+/// exact-size array with literal structure. SHAPE: 0 = never updated (empty form), 1 = every counter purged
+/// (no active item but stream weight and offset), 2 = one active item.
+fn fi_roundtrip_case<const SHAPE: u8, const LEN: usize>() {
     vm::init_home();
-    let which: u8 = kani::any();
-    kani::assume(which < 2);
-    let w = if which == 0 { world_with_layout(vm::LAYOUT_0) } else { world_with_layout(vm::LAYOUT_1) };
-    let n = w.s.hash_map.num_active();
-    let bytes = w.s.serialize();
-    let weight = w.s.total_weight();
-    let offset = w.s.maximum_error();
-    // ---- spec decoder (C12)
-    assert!(bytes[1] == 1 && bytes[2] == 10, "serial version / family id");
-    assert!(bytes[3] == 3 && bytes[4] == 3, "lg_max / lg_cur map size");
-    if weight == 0 {
-        assert!(bytes.len() == 8 && bytes[0] == 1 && bytes[5] & 4 != 0, "empty image");
-    } else {
-        assert!(bytes[0] == 4 && bytes[5] & 4 == 0, "non-empty preamble (a sketch that has seen weight is not empty)");
-        assert!(bytes.len() == 32 + 16 * n, "image length");
-        assert!(rd_u32(&bytes, 8) as usize == n, "active item count");
-        assert!(rd_u64(&bytes, 16) == weight, "stream weight field");
-        assert!(rd_u64(&bytes, 24) == offset, "offset field");
-        let mut i = 0;
-        while i < n {
-            let cnt = rd_u64(&bytes, 32 + 8 * i);
-            let item = rd_u64(&bytes, 32 + 8 * n + 8 * i);
-            assert!((item as usize) < D && vm::model_get(&w.s.hash_map, item) == cnt, "(item, count) pair not from the sketch");
-            i += 1;
+    let map = if SHAPE == 2 { vm::map_with_layout(vm::LAYOUT_1) } else { vm::map_with_layout(vm::LAYOUT_0) };
+    let n: usize = if SHAPE == 2 { 1 } else { 0 };
+    let offset: u64 = if SHAPE == 0 { 0 } else { kani::any() };
+    let weight: u64 = if SHAPE == 0 { 0 } else { kani::any() };
+    kani::assume(offset < (1u64 << 58) && weight < (1u64 << 62));
+    let (item, count) = if SHAPE == 2 { vm::slot_of(&map, 3) } else { (0, 0) };
+    if SHAPE != 0 {
+        kani::assume(weight >= 1 && weight >= count && 3 * offset <= weight);
+    }
+    let s = FrequentItemsSketch { lg_max_map_size: 3, cur_map_cap: 6, offset, stream_weight: weight, sample_size: 6, hash_map: map };
+    let mut img = [0u8; LEN];
+    assert!(LEN == if SHAPE == 0 { 8 } else { 32 + 16 * n });
+    img[0] = if SHAPE == 0 { 1 } else { 4 }; // preamble longs
+    img[1] = 1; // serial version
+    img[2] = 10; // family id
+    img[3] = 3; // lg_max_map_size
+    img[4] = 3; // lg_cur_map_size
+    img[5] = if SHAPE == 0 { 5 } else { 0 }; // flags: empty (bits 0 and 2, as C++ writes it; Java tests bit 2) - a sketch that has seen weight is not empty
+    if SHAPE != 0 {
+        put_le(&mut img, 8, n as u64, 4); // active items (+ 4 unused bytes)
+        put_le(&mut img, 16, weight, 8);
+        put_le(&mut img, 24, offset, 8);
+        if SHAPE == 2 {
+            put_le(&mut img, 32, count, 8); // counts first ...
+            put_le(&mut img, 40, item, 8); // ... then items
         }
     }
+    let bytes = s.serialize();
+    assert!(bytes.len() == LEN, "image length is not 8 or 32 + 16 * items");
+    macro_rules! same_word {
+        ($($i:expr),*) => { $( if 8 * $i < LEN {
+            assert!(rd_u64(&bytes, 8 * $i) == rd_u64(&img, 8 * $i), "serialized bytes differ from the documented layout");
+        } )* };
+    }
+    same_word!(0, 1, 2, 3, 4, 5);
     // ---- round trip (C11)
-    let r = FrequentItemsSketch::<u64>::deserialize(&bytes);
+    let r = FrequentItemsSketch::<u64>::deserialize(&img);
     let g = crate::verif_kani_common::expect_ok(r, "own image rejected");
     assert!(g.total_weight() == weight, "total weight lost in round trip");
     assert!(g.maximum_error() == offset, "maximum error lost in round trip");
@@ -382,11 +396,79 @@ fn c11_frequencies_roundtrip_layout() {
     assert!(g.lg_max_map_size() == 3 && g.lg_cur_map_size() == 3);
     let x: u64 = kani::any();
     kani::assume((x as usize) < D);
-    assert!(g.lower_bound(&x) == w.s.lower_bound(&x) && g.upper_bound(&x) == w.s.upper_bound(&x), "bounds differ after round trip");
-    kani::cover!(n == 0 && weight > 0);
-    kani::cover!(n == 1);
-    kani::cover!(weight == 0);
-    core::mem::forget((w, g, bytes));
+    assert!(g.lower_bound(&x) == s.lower_bound(&x) && g.upper_bound(&x) == s.upper_bound(&x), "bounds differ after round trip");
+    kani::cover!(true);
+    core::mem::forget((s, g, bytes));
+}
+
+macro_rules! fi_roundtrip {
+    ($name:ident, $shape:expr, $len:expr) => {
+        #[kani::proof]
+        #[kani::unwind(10)]
+        #[kani::stub(crate::frequencies::reverse_purge_item_hash_map::hash_item, verif_hash_item)]
+        #[kani::stub(alloc::fmt::format, stub_format)]
+        #[kani::stub(<[u64]>::select_nth_unstable, crate::verif_kani_common::model_select_nth)]
+        fn $name() {
+            fi_roundtrip_case::<$shape, $len>();
+        }
+    };
+}
+
+//@ family: fi_roundtrip
+//@ props: C11 C12 C07
+//@ tier: thorough
+//@ timeout: 1800
+//@ functions: frequencies::FrequentItemsSketch::serialize
+//@ functions: frequencies::FrequentItemsSketch::serialize_inner
+//@ functions: frequencies::FrequentItemsSketch::deserialize
+//@ functions: frequencies::FrequentItemsSketch::deserialize_inner
+//@ unwind: 10
+//@ stubs: hash_item -> symbolic home table; alloc::fmt::format -> empty string; select_nth_unstable -> reference model
+//@ bounds: size-8 sketches (u64 items) of the instance's shape: never updated; every counter purged (no active item, stream_weight > 0, offset symbolic); one active item with symbolic count, offset and stream weight
+//@ assumes: sketch invariant (valid probing table)
+//@ replay_stub: frequencies/reverse_purge_item_hash_map.rs | fn hash_item<T: Hash>(item: &T) -> u64 { | return self::verif_kani_frequencies_map::verif_hash_item(item);
+//@ desc: serialize() equals, byte for byte, the image a spec encoder written from the Frequent Items layout produces (preLongs 1/4, serVer 1, family 10, lgMax @3, lgCur @4, flags @5 with the empty bits (0 and 2) only for a sketch that has seen no weight, activeItems u32 @8, streamWeight u64 @16, offset u64 @24, then counts, then items); deserializing it gives the same total weight, maximum error and per-item bounds for every key
+fi_roundtrip!(c11_frequencies_roundtrip_empty, 0, 8); //@ tier: quick
+fi_roundtrip!(c11_frequencies_roundtrip_purged, 1, 32); //@ tier: quick
+fi_roundtrip!(c11_frequencies_roundtrip_one_item, 2, 48);
+//@ endfamily: x
+
+//@ props: C14
+//@ tier: quick
+//@ timeout: 900
+//@ functions: frequencies::FrequentItemsSketch::deserialize_inner
+//@ stubs: FrequentItemsSketch::with_lg_map_sizes -> recorder (the map allocation is configuration-sized); alloc::fmt::format -> empty string
+//@ bounds: every byte string of length 0..=32 (the whole preamble symbolic, no items)
+//@ desc: the preamble checks never panic: family 10, serVer 1, lg_cur <= lg_max <= 30, preLongs 1 exactly for the empty flag and 4 otherwise; a sketch is only constructed with map sizes that passed them
+#[kani::proof]
+#[kani::unwind(6)]
+#[kani::stub(alloc::fmt::format, stub_format)]
+#[kani::stub(FrequentItemsSketch::with_lg_map_sizes, rec_with_lg_map_sizes)]
+fn c14_frequencies_header_any_bytes() {
+    let img: [u8; 32] = kani::any();
+    let len: usize = kani::any();
+    kani::assume(len <= 32);
+    unsafe {
+        MAP_SIZES = (255, 255);
+    }
+    let r = FrequentItemsSketch::<u64>::deserialize(&img[..len]);
+    let (lg_max, lg_cur) = unsafe { MAP_SIZES };
+    if r.is_ok() {
+        assert!(lg_max != 255 && lg_cur <= lg_max && lg_max <= 30, "a sketch was built with map sizes that are not lg_cur <= lg_max <= 30");
+        assert!(img[2] == 10 && img[1] == 1, "family / serial version not checked");
+        assert!(lg_max == img[3] && lg_cur == img[4]);
+    }
+    kani::cover!(r.is_ok());
+    kani::cover!(r.is_err() && len >= 8);
+    core::mem::forget(r);
+}
+
+static mut MAP_SIZES: (u8, u8) = (255, 255);
+fn rec_with_lg_map_sizes<T: Eq + Hash>(lg_max: u8, lg_cur: u8) -> FrequentItemsSketch<T> {
+    unsafe {
+        MAP_SIZES = (lg_max, lg_cur);
+    }
+    FrequentItemsSketch { lg_max_map_size: 3, cur_map_cap: 6, offset: 0, stream_weight: 0, sample_size: 6, hash_map: ReversePurgeItemHashMap::new(8) }
 }
 
 /// stand-in for `hash_item` in the parser harness: an arbitrary value per call (no-panic does not depend
@@ -403,19 +485,21 @@ fn any_hash_item<T: Hash>(_item: &T) -> u64 {
 //@ functions: frequencies::FrequentItemsSketch::with_lg_map_sizes
 //@ functions: frequencies::FrequentItemsSketch::update_with_count
 //@ stubs: hash_item -> arbitrary value per call; alloc::fmt::format -> empty string
-//@ bounds: every byte string of length 0..=56 (u64 items: header, up to one counter and one item, or truncated forms of larger counts) with lg_cur_map_size (byte 4) <= 3, i.e. the minimum 8-slot map; lg_max_map_size and every other field unconstrained
+//@ bounds: every byte string of length 0..=56 (u64 items: header, up to one counter and one item, or truncated forms of larger counts) with the map-size bytes the literals lg_max = lg_cur = 3 (the minimum 8-slot map); every other field and the length symbolic
 //@ desc: deserialize returns Ok or Err without panic for every byte string; an Ok value can be queried
 #[kani::proof]
 #[kani::unwind(12)]
 #[kani::stub(alloc::fmt::format, stub_format)]
 #[kani::stub(crate::frequencies::reverse_purge_item_hash_map::hash_item, any_hash_item)]
 fn c14_frequencies_any_bytes() {
-    let img: [u8; 56] = kani::any();
+    let mut img: [u8; 56] = kani::any();
     let len: usize = kani::any();
     kani::assume(len <= 56);
-    // lg_cur (byte 4) at most the minimum so that the map allocation is the concrete minimum (8 slots);
-    // lg_max (byte 3) is unconstrained
-    kani::assume(img[4] <= 3);
+    // map-size fields as literals (lg_max = lg_cur = 3, the minimum 8-slot map): the map allocation is then
+    // concrete; every other byte and the length stay symbolic. Their validation (lg_cur <= lg_max <= 30) is
+    // c14_frequencies_header_any_bytes.
+    img[3] = 3;
+    img[4] = 3;
     let r = FrequentItemsSketch::<u64>::deserialize(&img[..len]);
     kani::cover!(r.is_ok());
     kani::cover!(r.is_err());
